@@ -211,25 +211,128 @@ func (fi *FuncInfo) siblingConds(list []ast.Stmt, child ast.Node) []Cond {
 		}
 		is, ok := s.(*ast.IfStmt)
 		if !ok {
+			if _, isClause := s.(*ast.CaseClause); isClause {
+				continue // the clauses of a switch are alternatives, not a sequence
+			}
+			if _, isClause := s.(*ast.CommClause); isClause {
+				continue
+			}
+			if l := fi.partialLeave(s); l != nil {
+				out = append(out, Cond{Kind: "may-leave", Expr: &ast.Ident{NamePos: s.Pos(), Name: "_mayLeave"}, Neg: true, At: s})
+			}
 			continue
 		}
+		handled := false
 		for is != nil {
 			if terminates(is.Body) {
 				out = append(out, flatten(is.Cond, true, is)...)
+				handled = true
 				switch e := is.Else.(type) {
 				case *ast.IfStmt:
 					is = e
+					handled = false
 					continue
+				case *ast.BlockStmt:
+					handled = fi.partialLeave(e) == nil
 				}
 			} else if is.Else != nil {
 				if b, ok := is.Else.(*ast.BlockStmt); ok && terminates(b) {
 					out = append(out, flatten(is.Cond, false, is)...)
+					handled = fi.partialLeave(is.Body) == nil
 				}
 			}
 			break
 		}
+		if !handled && is != nil {
+			// a statement before this one that leaves on some of its paths only (a `continue` or a successful
+			// return nested under further conditions): what follows runs under a condition the forms above do
+			// not express — recorded as an opaque guard, so that "nothing else guards this" is not concluded
+			if l := fi.partialLeave(is); l != nil {
+				out = append(out, Cond{Kind: "may-leave", Expr: is.Cond, Neg: true, At: is})
+			}
+		}
 	}
 	return out
+}
+
+// partialLeave returns a statement inside s that leaves s other than by failing: a continue/break of a loop
+// enclosing s, a goto, or a return that does not report an error.
+func (fi *FuncInfo) partialLeave(s ast.Node) ast.Node {
+	var found ast.Node
+	own := map[string]bool{} // labels declared inside s: branches to them stay inside
+	ast.Inspect(s, func(m ast.Node) bool {
+		if ls, ok := m.(*ast.LabeledStmt); ok {
+			own[ls.Label.Name] = true
+		}
+		return true
+	})
+	if ls, ok := fi.parent[s].(*ast.LabeledStmt); ok {
+		own[ls.Label.Name] = true
+	}
+	var walk func(n ast.Node, inLoop, inSwitch bool)
+	walk = func(n ast.Node, inLoop, inSwitch bool) {
+		ast.Inspect(n, func(m ast.Node) bool {
+			if m == nil || found != nil {
+				return false
+			}
+			if m == n {
+				return true
+			}
+			switch x := m.(type) {
+			case *ast.FuncLit:
+				return false
+			case *ast.ForStmt:
+				walk(x.Body, true, false)
+				return false
+			case *ast.RangeStmt:
+				walk(x.Body, true, false)
+				return false
+			case *ast.SwitchStmt:
+				walk(x.Body, inLoop, true)
+				return false
+			case *ast.TypeSwitchStmt:
+				walk(x.Body, inLoop, true)
+				return false
+			case *ast.SelectStmt:
+				walk(x.Body, inLoop, true)
+				return false
+			case *ast.ReturnStmt:
+				if len(x.Results) > 0 {
+					last := x.Results[len(x.Results)-1]
+					if t := fi.Info.TypeOf(last); t != nil && !fi.isNilIdent(last) && (isErrorType(t) || isErrorSlice(t)) {
+						return true // a failing exit
+					}
+				}
+				found = x
+			case *ast.BranchStmt:
+				switch {
+				case x.Label != nil && own[x.Label.Name]:
+				case x.Label != nil, x.Tok == token.GOTO:
+					found = x
+				case x.Tok == token.FALLTHROUGH:
+				case inLoop, x.Tok == token.BREAK && inSwitch:
+				default:
+					found = x
+				}
+			}
+			return true
+		})
+	}
+	switch x := s.(type) {
+	case *ast.ForStmt:
+		walk(x.Body, true, false)
+	case *ast.RangeStmt:
+		walk(x.Body, true, false)
+	case *ast.SwitchStmt:
+		walk(x.Body, false, true)
+	case *ast.TypeSwitchStmt:
+		walk(x.Body, false, true)
+	case *ast.SelectStmt:
+		walk(x.Body, false, true)
+	default:
+		walk(s, false, false)
+	}
+	return found
 }
 
 func (fi *FuncInfo) caseConds(cc *ast.CaseClause) []Cond {
